@@ -585,3 +585,740 @@ Proof.
   - split; [|repeat split]. unfold append_test. unfold fi, ck in *. cbn. split; [exact Htw|]. split; [exact Hck|]. split; [|exact Hcur].
     intro Hts. rewrite Ha in Hts. discriminate.
 Qed.
+
+(* ====================================================================================== *)
+(* Part 3: the state invariant                                                             *)
+(* ====================================================================================== *)
+
+Definition is_vartest (f : frame) : bool := is_test f && d_variable_args_nb (f_def f).
+Definition n_vartest (s : list frame) : nat := length (filter is_vartest s).
+Definition n_nontest (s : list frame) : nat := length (filter (fun f => negb (is_test f)) s).
+Definition n_paren (b : list bracket) : nat := length (filter (bracket_eqb BRParen) b).
+(* the brackets above the topmost string-list bracket *)
+Fixpoint seg (b : list bracket) : list bracket :=
+  match b with
+  | [] => []
+  | BRBracket :: _ => []
+  | x :: t => x :: seg t
+  end.
+Definition n_cbr (b : list bracket) : nat := length (filter (bracket_eqb BRCBracket) (seg b)).
+
+Definition plain_attach (f : frame) : Prop :=
+  match f_attach f with AtTop | AtChild => True | _ => False end.
+
+(* a frame [c] directly above its parent [p] *)
+Definition adj_ok (c p : frame) : Prop :=
+  d_non_deterministic_args (f_def p) = false /\
+  (if is_test c
+   then has_test_slot (f_def p) = true /\ (iscomplete p None = true \/ d_variable_args_nb (f_def p) = true)
+   else is_control p = true /\ iscomplete p None = true /\ plain_attach c).
+
+Fixpoint stack_ok (s : list frame) : Prop :=
+  match s with
+  | [] => True
+  | c :: t => fi c /\ match t with [] => is_test c = false | p :: _ => adj_ok c p end /\ stack_ok t
+  end.
+
+Lemma stack_ok_tail : forall c t, stack_ok (c :: t) -> stack_ok t.
+Proof. intros c t (_ & _ & H). exact H. Qed.
+
+Lemma stack_ok_top : forall c t, stack_ok (c :: t) -> fi c.
+Proof. intros c t (H & _). exact H. Qed.
+
+Lemma stack_ok_replace : forall c c' t,
+  stack_ok (c :: t) -> fi c' -> f_def c' = f_def c -> f_attach c' = f_attach c -> stack_ok (c' :: t).
+Proof.
+  intros c c' t (Hf & Ha & Ht) Hf' Hd Hat. cbn. split; [exact Hf'|]. split; [|exact Ht].
+  destruct t as [|p t'].
+  - unfold is_test in *. rewrite Hd. exact Ha.
+  - unfold adj_ok, is_test, plain_attach in *. rewrite Hd, Hat. exact Ha.
+Qed.
+
+Lemma is_control_not_test : forall f, is_control f = true -> is_test f = false.
+Proof. intros f H. unfold is_control, is_test in *. destruct (d_type (f_def f)); try discriminate; reflexivity. Qed.
+
+Lemma nontest_below : forall t c, stack_ok (c :: t) -> is_test c = false -> forall f, In f t -> is_test f = false.
+Proof.
+  induction t as [|p t IH]; intros c Hs Hc f Hin; [destruct Hin|].
+  destruct Hs as (_ & Ha & Ht). unfold adj_ok in Ha. rewrite Hc in Ha. destruct Ha as (_ & Hctl & _).
+  pose proof (is_control_not_test _ Hctl) as Hp.
+  destruct Hin as [<-|Hin]; [exact Hp|]. apply (IH p Ht Hp f Hin).
+Qed.
+
+Lemma test_has_parent : forall c t, stack_ok (c :: t) -> is_test c = true -> t <> [].
+Proof. intros c [|p t] (_ & Ha & _) Hc; [congruence|discriminate]. Qed.
+
+Lemma n_vartest_nontest : forall s, (forall f, In f s -> is_test f = false) -> n_vartest s = 0.
+Proof.
+  induction s as [|f s IH]; intro H; [reflexivity|]. unfold n_vartest in *. cbn [filter].
+  unfold is_vartest at 1. rewrite (H f (or_introl eq_refl)). cbn. apply IH. intros g Hg. apply H. right. exact Hg.
+Qed.
+
+Lemma n_nontest_pos : forall s, stack_ok s -> s <> [] -> 1 <= n_nontest s.
+Proof.
+  induction s as [|c t IH]; intros Hs Hne; [congruence|]. unfold n_nontest in *. cbn [filter].
+  destruct t as [|p t'].
+  - destruct Hs as (_ & Hc & _). rewrite Hc. cbn. lia.
+  - specialize (IH (stack_ok_tail _ _ Hs)). destruct (negb (is_test c)); cbn [length]; [lia|]. apply IH. discriminate.
+Qed.
+
+Lemma twf_test_slot_kind : forall d, twf d = true -> has_test_slot d = true ->
+  d_non_deterministic_args d = false /\
+  match d_type d with CAction => False | _ => True end /\
+  (d_variable_args_nb d = true -> is_ctest d = true).
+Proof.
+  intros d H Ht. pose proof H as H0. unfold twf in H. repeat (apply andb_true_iff in H; destruct H as [H ?]).
+  rewrite Ht in *. split.
+  - destruct (d_non_deterministic_args d); auto.
+    match goal with K : (_ && is_ctest d && negb true)%bool = true |- _ => rewrite andb_false_r in K; discriminate end.
+  - destruct (twf_test_slot d H0 Ht) as (a & Ha & _ & _ & Hk).
+    match goal with K : match d_args d with [] => _ | _ => _ end = true |- _ => rename K into K0 end.
+    rewrite Ha in K0. apply andb_true_iff in K0. destruct K0 as [_ K0].
+    split.
+    + apply orb_true_iff in K0. destruct K0 as [K0|K0].
+      * apply andb_true_iff in K0. destruct K0 as [_ K0]. destruct (d_type d); auto; discriminate.
+      * repeat (apply andb_true_iff in K0; destruct K0 as [K0 ?]). unfold is_ctest in *. destruct (d_type d); auto; discriminate.
+    + intro Hv. destruct Hk as [(_ & Hn)|(_ & _ & Hc)]; [congruence|exact Hc].
+Qed.
+
+(* a test-list command always takes one more test and stays as it is *)
+Lemma cna_vartest : forall f v add ce loaded,
+  fi f -> has_test_slot (f_def f) = true -> d_variable_args_nb (f_def f) = true ->
+  exists a, check_next_arg f TyTest v add ce loaded = CnaOk f (Some a) /\ is_tl a = true.
+Proof.
+  intros f v add ce loaded Hfi Hts Hv. pose proof Hfi as (Htw & (Hck & Hvar) & Hnt & Hcur).
+  destruct (twf_test_slot _ Htw Hts) as (a & Ha & Hreq & _ & [(_ & Hn)|(Htl & _ & _)]); [congruence|].
+  exists a. split; [|exact Htl].
+  destruct (Hvar Hv) as (Hp & _).
+  assert (Hso : slot_val_ok a = true) by (apply (twf_slots _ _ Htw); rewrite Ha; left; reflexivity).
+  assert (Hnoex : a_extra a = None).
+  { unfold slot_val_ok in Hso. repeat (apply andb_true_iff in Hso; destruct Hso as [Hso ?]).
+    rewrite Hreq in *. destruct (a_extra a); [discriminate|reflexivity]. }
+  unfold check_next_arg, has_arguments. rewrite Ha. cbn [negb].
+  assert (Hic : iscomplete f (Some (TyTest, v)) = false) by (unfold iscomplete; rewrite Hv; reflexivity).
+  rewrite Hic, Hp. cbn [skipn].
+  assert (Hscan : cna_scan f [a] 0 TyTest v add ce loaded = CnaOk f (Some a)).
+  { cbn [cna_scan]. rewrite Hreq, match_tl. fold (is_tl a). rewrite Htl. reflexivity. }
+  destruct (f_curarg f) as [ca|] eqn:Ec; [|exact Hscan].
+  pose proof (Hcur _ eq_refl) as Hin. rewrite Ha in Hin. destruct Hin as [<-|[]]. rewrite Hnoex. exact Hscan.
+Qed.
+
+Definition same_io (st st' : pstate) : Prop :=
+  p_cstate st' = p_cstate st /\ p_curlist st' = p_curlist st /\ p_brackets st' = p_brackets st /\
+  p_loaded st' = p_loaded st /\ p_hash st' = p_hash st /\ p_result st' = p_result st.
+
+Lemma same_io_refl : forall st, same_io st st.
+Proof. intro st. unfold same_io. repeat split. Qed.
+
+Lemma same_io_se : forall st s e, same_io st (with_stack s (with_expected e st)).
+Proof. intros st s e. unfold same_io. cbn. repeat split. Qed.
+
+Lemma same_io_s : forall st s, same_io st (with_stack s st).
+Proof. intros st s. unfold same_io. cbn. repeat split. Qed.
+
+Definition cc_test_post (st : pstate) (cur : frame) (rest : list frame) (r : mres) : Prop :=
+  match r with
+  | MTrue st' =>
+      exists top' rest',
+        p_stack st' = top' :: rest' /\ same_io st st' /\ stack_ok (top' :: rest') /\
+        n_vartest (top' :: rest') = n_vartest (cur :: rest) /\
+        n_nontest (top' :: rest') = n_nontest (cur :: rest) /\
+        d_non_deterministic_args (f_def top') = false /\
+        ((p_expected st' = Some [TLeftCBracket] /\ is_test top' = false) \/
+         (p_expected st' = Some [TComma; TRightParen] /\ is_vartest top' = true))
+  | _ => False
+  end.
+
+Lemma is_vartest_def : forall f g, f_def g = f_def f -> is_vartest g = is_vartest f.
+Proof. intros f g H. unfold is_vartest, is_test. rewrite H. reflexivity. Qed.
+
+Lemma is_test_def : forall f g, f_def g = f_def f -> is_test g = is_test f.
+Proof. intros f g H. unfold is_test. rewrite H. reflexivity. Qed.
+
+Lemma complete_not_vartest : forall f, iscomplete f None = true -> is_vartest f = false.
+Proof.
+  intros f H. unfold is_vartest. unfold iscomplete in H.
+  destruct (d_variable_args_nb (f_def f)); [discriminate|]. apply andb_false_r.
+Qed.
+
+Lemma n_vartest_cons : forall f s, n_vartest (f :: s) = (if is_vartest f then 1 else 0) + n_vartest s.
+Proof. intros f s. unfold n_vartest. cbn [filter]. destruct (is_vartest f); reflexivity. Qed.
+
+Lemma n_nontest_cons : forall f s, n_nontest (f :: s) = (if is_test f then 0 else 1) + n_nontest s.
+Proof. intros f s. unfold n_nontest. cbn [filter]. destruct (is_test f); reflexivity. Qed.
+
+(* leaving a complete test: the walk up stops at the enclosing control (which then wants its block) or
+   at the enclosing test list (which then wants ',' or ')') *)
+Lemma cc_loop_test : forall rest cur st,
+  stack_ok (cur :: rest) -> is_test cur = true -> iscomplete cur None = true ->
+  cc_test_post st cur rest (cc_loop cur rest st).
+Proof.
+  induction rest as [|parent rest' IH]; intros cur st Hs Ht Hc.
+  - exfalso. apply (test_has_parent _ _ Hs Ht). reflexivity.
+  - pose proof Hs as (Hfc & Ha & Hs').
+    unfold adj_ok in Ha. rewrite Ht in Ha. destruct Ha as (Hnd & Hts & Hready).
+    pose proof (stack_ok_top _ _ Hs') as Hfp.
+    assert (Htwp : twf (f_def parent) = true) by apply Hfp.
+    destruct (twf_test_slot_kind _ Htwp Hts) as (_ & Hkind & Hvt).
+    destruct (fi_attach cur parent Hfp) as (Hf1 & Hd1 & Ha1 & Hc1 & Hr1 & Hn1).
+    { destruct (f_attach cur); auto. }
+    set (p1 := attach_into cur parent) in *.
+    assert (Hs1 : stack_ok (p1 :: rest')) by (apply (stack_ok_replace parent); auto).
+    assert (Hic1 : iscomplete p1 None = iscomplete parent None) by (apply iscomplete_ext; auto).
+    assert (Hcv : is_vartest cur = false) by (apply complete_not_vartest; exact Hc).
+    cbn [cc_loop]. fold p1.
+    assert (Hct : is_control p1 || is_test p1 = true).
+    { unfold is_control, is_test. rewrite Hd1. destruct (d_type (f_def parent)); auto; contradiction. }
+    rewrite Hct, Hic1.
+    destruct (iscomplete parent None) eqn:Ecp.
+    + destruct (is_control p1) eqn:Ectl.
+      * (* the enclosing control is complete *)
+        unfold cc_test_post. exists p1, rest'. split; [reflexivity|]. split; [apply same_io_se|]. split; [exact Hs1|].
+        split; [rewrite !n_vartest_cons, Hcv, (is_vartest_def parent p1 Hd1); reflexivity|].
+        split; [rewrite !n_nontest_cons, Ht, (is_test_def parent p1 Hd1); reflexivity|].
+        split; [rewrite Hd1; exact Hnd|].
+        left. split; [reflexivity|apply is_control_not_test; exact Ectl].
+      * (* an enclosing test (not) is complete as well: go on *)
+        assert (Htp : is_test p1 = true) by exact Hct.
+        assert (Hcp1 : iscomplete p1 None = true) by exact Hic1.
+        specialize (IH p1 st Hs1 Htp Hcp1).
+        unfold cc_test_post in *. destruct (cc_loop p1 rest' st); try contradiction.
+        destruct IH as (top' & r' & E1 & E2 & E3 & E4 & E5 & E6 & E7).
+        exists top', r'. split; [exact E1|]. split; [exact E2|]. split; [exact E3|].
+        split; [rewrite E4, !n_vartest_cons, Hcv, (is_vartest_def parent p1 Hd1); reflexivity|].
+        split; [rewrite E5, !n_nontest_cons, Ht, (is_test_def parent p1 Hd1); reflexivity|].
+        split; [exact E6|exact E7].
+    + (* not complete: a test list *)
+      destruct Hready as [Hready|Hvar]; [discriminate|].
+      assert (Hv1 : d_variable_args_nb (f_def p1) = true) by (rewrite Hd1; exact Hvar).
+      assert (Hts1 : has_test_slot (f_def p1) = true) by (rewrite Hd1; exact Hts).
+      destruct (cna_vartest p1 placeholder false true (p_loaded st) Hf1 Hts1 Hv1) as (a & Hcna & _).
+      rewrite Hcna.
+      assert (Hnc : iscomplete p1 None = false) by exact Hic1.
+      rewrite Hnc. cbn [negb]. rewrite Hv1.
+      unfold cc_test_post. exists p1, rest'. split; [reflexivity|]. split; [apply same_io_se|]. split; [exact Hs1|].
+      split; [rewrite !n_vartest_cons, Hcv, (is_vartest_def parent p1 Hd1); reflexivity|].
+      split; [rewrite !n_nontest_cons, Ht, (is_test_def parent p1 Hd1); reflexivity|].
+      split; [rewrite Hd1; exact Hnd|].
+      right. split; [reflexivity|].
+      unfold is_vartest. rewrite Hv1, andb_true_r. unfold is_test. rewrite Hd1.
+      specialize (Hvt Hvar). unfold is_ctest in Hvt. exact Hvt.
+Qed.
+
+(* leaving a complete control that accepts children (else, or an if whose test list was closed) when a
+   string list is opened after it: the enclosing control becomes current again *)
+Lemma cc_loop_nontest : forall rest cur st,
+  stack_ok (cur :: rest) -> is_test cur = false ->
+  match rest with
+  | [] => cc_loop cur rest st = MTrue (with_stack [cur] st)
+  | parent :: rest' =>
+      cc_loop cur rest st =
+      MTrue (with_stack (attach_into cur parent :: rest') (with_expected (Some [TLeftCBracket]) st)) /\
+      stack_ok (attach_into cur parent :: rest') /\ is_test (attach_into cur parent) = false /\
+      f_def (attach_into cur parent) = f_def parent
+  end.
+Proof.
+  intros [|parent rest'] cur st Hs Ht; [reflexivity|].
+  pose proof Hs as (Hfc & Ha & Hs').
+  unfold adj_ok in Ha. rewrite Ht in Ha. destruct Ha as (Hnd & Hctl & Hcomp & Hplain).
+  pose proof (stack_ok_top _ _ Hs') as Hfp.
+  destruct (fi_attach cur parent Hfp) as (Hf1 & Hd1 & Ha1 & Hc1 & Hr1 & Hn1).
+  { unfold plain_attach in Hplain. destruct (f_attach cur); auto; contradiction. }
+  set (p1 := attach_into cur parent) in *.
+  assert (Hic1 : iscomplete p1 None = true) by (rewrite <- Hcomp; apply iscomplete_ext; auto).
+  assert (Hctl1 : is_control p1 = true) by (unfold is_control in *; rewrite Hd1; exact Hctl).
+  split; [|split; [apply (stack_ok_replace parent); auto|split; [apply is_control_not_test; exact Hctl1|exact Hd1]]].
+  cbn [cc_loop]. fold p1. rewrite Hctl1, Hic1. reflexivity.
+Qed.
+
+Lemma up_loop_eq : forall p rest e,
+  up_loop p rest e =
+  if is_test p && iscomplete p None then
+    match rest with
+    | [] => ([], e)
+    | gp :: rest' => up_loop (attach_into p gp) rest' e
+    end
+  else if is_test p && d_variable_args_nb (f_def p) then (p :: rest, Some [TComma; TRightParen])
+       else (p :: rest, e).
+Proof. intros p [|gp rest'] e; reflexivity. Qed.
+
+Lemma up_loop_nontest : forall p rest e, is_test p = false -> up_loop p rest e = (p :: rest, e).
+Proof. intros p rest e H. rewrite up_loop_eq, H. reflexivity. Qed.
+
+Definition ready (p : frame) : Prop :=
+  has_test_slot (f_def p) = true /\ (iscomplete p None = true \/ d_variable_args_nb (f_def p) = true).
+
+(* the upward walk of __up from a frame that has just received a test *)
+Lemma up_loop_ready : forall rest p e,
+  stack_ok (p :: rest) -> ready p ->
+  exists top' rest' e',
+    up_loop p rest e = (top' :: rest', e') /\ stack_ok (top' :: rest') /\
+    n_vartest (top' :: rest') = n_vartest (p :: rest) /\ n_nontest (top' :: rest') = n_nontest (p :: rest) /\
+    ((e' = e /\ is_test top' = false /\ iscomplete top' None = true) \/
+     (e' = Some [TComma; TRightParen] /\ is_vartest top' = true)).
+Proof.
+  induction rest as [|gp rest' IH]; intros p e Hs (Hts & Hrd).
+  - (* the bottom frame is not a test *)
+    destruct Hs as (Hfp & Hnt & _).
+    assert (Htw : twf (f_def p) = true) by apply Hfp.
+    destruct (twf_test_slot_kind _ Htw Hts) as (_ & _ & Hvt).
+    rewrite up_loop_nontest by exact Hnt.
+    exists p, [], e. split; [reflexivity|]. split; [cbn; auto|]. split; [reflexivity|]. split; [reflexivity|].
+    left. split; [reflexivity|]. split; [exact Hnt|].
+    destruct Hrd as [Hrd|Hv]; [exact Hrd|]. specialize (Hvt Hv). unfold is_ctest, is_test in *.
+    destruct (d_type (f_def p)); discriminate.
+  - pose proof Hs as (Hfp & Ha & Hs').
+    assert (Htw : twf (f_def p) = true) by apply Hfp.
+    destruct (twf_test_slot_kind _ Htw Hts) as (_ & _ & Hvt).
+    rewrite up_loop_eq.
+    destruct (is_test p) eqn:Etp; cbn [andb].
+    + destruct (iscomplete p None) eqn:Ecp.
+      * (* complete test: attached to its parent, go on *)
+        unfold adj_ok in Ha. rewrite Etp in Ha. destruct Ha as (Hnd & Hts' & Hrd').
+        pose proof (stack_ok_top _ _ Hs') as Hfg.
+        destruct (fi_attach p gp Hfg) as (Hf1 & Hd1 & Ha1 & Hc1 & Hr1 & Hn1).
+        { destruct (f_attach p); auto. }
+        set (p1 := attach_into p gp) in *.
+        assert (Hs1 : stack_ok (p1 :: rest')) by (apply (stack_ok_replace gp); auto).
+        assert (Hrd1 : ready p1).
+        { unfold ready. rewrite Hd1. split; [exact Hts'|].
+          rewrite (iscomplete_ext gp p1 None Hd1 Hc1 Hr1). exact Hrd'. }
+        destruct (IH p1 e Hs1 Hrd1) as (top' & r' & e' & E1 & E2 & E3 & E4 & E5).
+        exists top', r', e'. split; [exact E1|]. split; [exact E2|].
+        split; [rewrite E3, !n_vartest_cons, (complete_not_vartest p Ecp), (is_vartest_def gp p1 Hd1); reflexivity|].
+        split; [rewrite E4, !n_nontest_cons, Etp, (is_test_def gp p1 Hd1); reflexivity|exact E5].
+      * (* incomplete test: a test list *)
+        destruct Hrd as [Hrd|Hv]; [discriminate|]. rewrite Hv.
+        exists p, (gp :: rest'), (Some [TComma; TRightParen]). split; [reflexivity|]. split; [exact Hs|].
+        split; [reflexivity|]. split; [reflexivity|]. right. split; [reflexivity|].
+        unfold is_vartest. rewrite Etp, Hv. reflexivity.
+    + exists p, (gp :: rest'), e. split; [reflexivity|]. split; [exact Hs|]. split; [reflexivity|]. split; [reflexivity|].
+      left. split; [reflexivity|]. split; [exact Etp|].
+      destruct Hrd as [Hrd|Hv]; [exact Hrd|]. specialize (Hvt Hv). unfold is_ctest, is_test in *.
+      destruct (d_type (f_def p)); discriminate.
+Qed.
+
+Ltac pcbn := cbn [p_stack p_cstate p_curlist p_expected p_brackets p_loaded p_hash p_result
+                   with_stack with_cstate with_curlist with_expected with_brackets with_loaded with_hash with_result].
+Ltac pcbn_in H := cbn [p_stack p_cstate p_curlist p_expected p_brackets p_loaded p_hash p_result
+                   with_stack with_cstate with_curlist with_expected with_brackets with_loaded with_hash with_result] in H.
+
+Definition exp_ind (e : option (list tkind)) : nat := if exp_has TLeftParen e then 1 else 0.
+Definition cs_ind (c : cst) : nat := match c with CNone => 0 | _ => 1 end.
+
+Definition top_closed (s : list frame) : Prop :=
+  match s with
+  | f :: _ => has_test_slot (f_def f) = false \/ iscomplete f None = true
+  | [] => True
+  end.
+
+(* the invariant of the states from which parsing can go on; [e] stands for the expected-token set *)
+Definition LiveE (st : pstate) (e : option (list tkind)) : Prop :=
+  stack_ok (p_stack st) /\
+  (p_cstate st <> CNone -> p_stack st <> []) /\
+  (p_cstate st = CNone -> forall f, In f (p_stack st) -> is_test f = false) /\
+  n_paren (p_brackets st) + exp_ind e <= n_vartest (p_stack st) /\
+  n_cbr (p_brackets st) + cs_ind (p_cstate st) <= n_nontest (p_stack st) /\
+  (p_cstate st = CStrList ->
+   exists b', p_brackets st = BRBracket :: b' /\
+              (e <> Some [TLeftCBracket] -> n_cbr b' + 1 <= n_nontest (p_stack st))) /\
+  (p_cstate st = CArgs -> e = None -> top_closed (p_stack st)).
+
+Definition Live (st : pstate) : Prop := LiveE st (p_expected st).
+
+(* a stray '(' : the next token must be an identifier, and no test can be accepted: the parse ends *)
+Definition Dead (st : pstate) : Prop :=
+  p_cstate st = CArgs /\ p_expected st = Some [TIdentifier] /\
+  exists f r, p_stack st = f :: r /\ fi f /\ (has_test_slot (f_def f) = false \/ iscomplete f None = true).
+
+Definition Inv (st : pstate) : Prop := Dead st \/ Live st.
+
+Lemma Inv_init : Inv p_init.
+Proof.
+  right. unfold Live, LiveE, p_init. cbn.
+  split; [exact I|]. split; [intro H; congruence|]. split; [intros _ f []|].
+  split; [lia|]. split; [lia|]. split; [discriminate|discriminate].
+Qed.
+
+Definition res_inv (r : mres) : Prop :=
+  match r with
+  | MCrash => False
+  | MTrue st' | MRewind st' => Inv st'
+  | _ => True
+  end.
+
+Lemma exp_ind_le : forall e, exp_ind e <= 1.
+Proof. intro e. unfold exp_ind. destruct (exp_has TLeftParen e); lia. Qed.
+
+(* check_completion on a live state in which a command is current *)
+Lemma cc_live : forall st ts,
+  Live st -> p_cstate st <> CNone ->
+  (p_cstate st = CStrList -> p_expected st <> Some [TLeftCBracket]) ->
+  (ts = true -> p_cstate st = CArgs) ->
+  (forall cur r, p_stack st = cur :: r -> is_test cur = false -> d_accept_children (f_def cur) = true ->
+                 iscomplete cur None = true -> n_cbr (p_brackets st) = 0) ->
+  match check_completion st ts with
+  | MTrue st' => Live st' /\ p_cstate st' = p_cstate st /\ p_brackets st' = p_brackets st /\
+                 (forall cur r, p_stack st = cur :: r -> is_test cur = true -> iscomplete cur None = true ->
+                                exists top' r', p_stack st' = top' :: r' /\ d_non_deterministic_args (f_def top') = false)
+  | _ => False
+  end.
+Proof.
+  intros st ts HL Hcs Hstr Hts Hctl. unfold check_completion.
+  pose proof HL as (L1 & L2 & L3 & L4 & L5 & L6 & L7).
+  destruct (p_stack st) as [|cur rest] eqn:Es; [exfalso; apply (L2 Hcs); reflexivity|].
+  destruct (iscomplete cur None) eqn:Ec; cbn [negb].
+  2:{ split; [exact HL|]. split; [reflexivity|]. split; [reflexivity|].
+      intros c r E _ Hc. inversion E; subst. congruence. }
+  destruct (is_action cur || (is_control cur && negb (d_accept_children (f_def cur)))) eqn:Eac.
+  - (* an action or a control without block: nothing to leave *)
+    assert (Hnt : is_test cur = false).
+    { unfold is_action, is_control, is_test in *. destruct (d_type (f_def cur)); auto; discriminate. }
+    destruct ts.
+    + split; [|split; [reflexivity|split; [reflexivity|intros c r E Hc; inversion E; subst; congruence]]].
+      specialize (Hts eq_refl).
+      unfold Live, LiveE. pcbn. rewrite Es.
+      split; [exact L1|]. split; [exact L2|]. split; [exact L3|].
+      split; [change (exp_ind (Some [TSemicolon])) with 0; pose proof (exp_ind_le (p_expected st)); lia|].
+      split; [exact L5|]. split; [intro H; congruence|]. intros _ H. discriminate.
+    + split; [exact HL|]. split; [reflexivity|]. split; [reflexivity|].
+      intros c r E Hc. inversion E; subst. congruence.
+  - destruct (is_test cur) eqn:Et.
+    + (* a complete test is left *)
+      pose proof (cc_loop_test rest cur st L1 Et Ec) as P. unfold cc_test_post in P.
+      destruct (cc_loop cur rest st) as [st'| | | |]; try contradiction.
+      destruct P as (top' & r' & E1 & (S1 & S2 & S3 & S4 & S5 & S6) & E3 & E4 & E5 & E6 & E7).
+      split; [|split; [exact S1|split; [exact S3|intros; exists top', r'; auto]]].
+      unfold Live, LiveE. rewrite E1, S1, S3.
+      split; [exact E3|]. split; [intros _; discriminate|].
+      split; [intro H; contradiction|].
+      assert (Hei : exp_ind (p_expected st') = 0) by (destruct E7 as [(-> & _)|(-> & _)]; reflexivity).
+      split; [rewrite Hei, E4; lia|]. split; [rewrite E5; exact L5|].
+      split.
+      * intro Hcst. destruct (L6 Hcst) as (b' & Hb & Hn). exists b'. split; [exact Hb|].
+        intros _. rewrite E5. apply Hn. apply Hstr. exact Hcst.
+      * intros _ Hn. destruct E7 as [(E7 & _)|(E7 & _)]; rewrite E7 in Hn; discriminate.
+    + (* a complete control that accepts children is left (a string list was opened after it) *)
+      assert (Hch : d_accept_children (f_def cur) = true).
+      { unfold is_action, is_control, is_test in *. destruct (d_type (f_def cur)); try discriminate.
+        cbn in Eac. apply negb_false_iff in Eac. exact Eac. }
+      pose proof (Hctl cur rest eq_refl Et Hch Ec) as Hz.
+      pose proof (cc_loop_nontest rest cur st L1 Et) as P.
+      destruct rest as [|parent rest'].
+      * rewrite P. split; [|split; [reflexivity|split; [reflexivity|intros c r E Hc; inversion E; subst; congruence]]].
+        unfold Live, LiveE. pcbn. unfold Live, LiveE in HL. rewrite Es in HL. exact HL.
+      * destruct P as (P & Hs1 & Hnt1 & Hd1). rewrite P.
+        split; [|split; [reflexivity|split; [reflexivity|intros c r E Hc; inversion E; subst; congruence]]].
+        unfold Live, LiveE. pcbn.
+        split; [exact Hs1|]. split; [intros _; discriminate|].
+        split; [intro H; contradiction|].
+        assert (Hv : n_vartest (attach_into cur parent :: rest') = n_vartest (cur :: parent :: rest')).
+        { rewrite !n_vartest_cons. unfold is_vartest at 2. rewrite Et. cbn.
+          rewrite (is_vartest_def parent _ Hd1). reflexivity. }
+        split; [change (exp_ind (Some [TLeftCBracket])) with 0; rewrite Hv; pose proof (exp_ind_le (p_expected st)); lia|].
+        assert (Hp1 : 1 <= n_nontest (attach_into cur parent :: rest')) by (apply n_nontest_pos; [exact Hs1|discriminate]).
+        assert (Hc1 : cs_ind (p_cstate st) <= 1) by (destruct (p_cstate st); cbn; lia).
+        split; [rewrite Hz; lia|].
+        split; [intro Hcst; destruct (L6 Hcst) as (b' & Hb & _); exists b'; split; [exact Hb|intro H; congruence]|].
+        intros _ H. discriminate.
+Qed.
+
+(* Parser.__up when the command being closed is not a test (';' and '}') *)
+Lemma up_nontest : forall st cur rest,
+  p_stack st = cur :: rest -> stack_ok (cur :: rest) -> is_test cur = false ->
+  match up st with
+  | MTrue st' =>
+      p_cstate st' = p_cstate st /\ p_brackets st' = p_brackets st /\ p_expected st' = p_expected st /\
+      stack_ok (p_stack st') /\ (forall f, In f (p_stack st') -> is_test f = false) /\
+      n_nontest (p_stack st') + 1 = n_nontest (cur :: rest)
+  | MErr _ => True
+  | _ => False
+  end.
+Proof.
+  intros st cur rest Es Hs Ht. unfold up. rewrite Es.
+  match goal with |- context [if negb ?c then _ else _] => destruct c end; cbn [negb]; [|exact I].
+  destruct rest as [|parent rest'].
+  - pcbn. split; [reflexivity|]. split; [reflexivity|]. split; [reflexivity|]. split; [exact I|].
+    split; [intros f []|]. rewrite n_nontest_cons, Ht. reflexivity.
+  - pose proof Hs as (Hfc & Ha & Hs').
+    unfold adj_ok in Ha. rewrite Ht in Ha. destruct Ha as (Hnd & Hctl & Hcomp & Hplain).
+    pose proof (stack_ok_top _ _ Hs') as Hfp.
+    destruct (fi_attach cur parent Hfp) as (Hf1 & Hd1 & Ha1 & Hc1 & Hr1 & Hn1).
+    { unfold plain_attach in Hplain. destruct (f_attach cur); auto; contradiction. }
+    set (p1 := attach_into cur parent) in *.
+    assert (Hnt1 : is_test p1 = false).
+    { rewrite (is_test_def parent p1 Hd1). apply is_control_not_test. exact Hctl. }
+    rewrite (up_loop_nontest p1 rest' (p_expected st) Hnt1). pcbn.
+    assert (Hs1 : stack_ok (p1 :: rest')) by (apply (stack_ok_replace parent); auto).
+    split; [reflexivity|]. split; [reflexivity|]. split; [reflexivity|]. split; [exact Hs1|].
+    split.
+    + intros f [<-|Hin]; [exact Hnt1|]. apply (nontest_below rest' p1 Hs1 Hnt1 f Hin).
+    + assert (Hpt : is_test parent = false) by (apply is_control_not_test; exact Hctl).
+      rewrite !n_nontest_cons, Ht, Hnt1, Hpt. lia.
+Qed.
+
+(* Parser.__up when a test is closed by ')' *)
+Lemma up_test : forall st cur rest,
+  p_stack st = cur :: rest -> stack_ok (cur :: rest) -> is_test cur = true ->
+  match up st with
+  | MTrue st' =>
+      p_cstate st' = p_cstate st /\ p_brackets st' = p_brackets st /\
+      exists top' r',
+        p_stack st' = top' :: r' /\ stack_ok (top' :: r') /\
+        n_vartest (top' :: r') + (if is_vartest cur then 1 else 0) = n_vartest (cur :: rest) /\
+        n_nontest (top' :: r') = n_nontest (cur :: rest) /\
+        ((p_expected st' = p_expected st /\ is_test top' = false /\ iscomplete top' None = true) \/
+         (p_expected st' = Some [TComma; TRightParen] /\ is_vartest top' = true))
+  | MErr _ => True
+  | _ => False
+  end.
+Proof.
+  intros st cur rest Es Hs Ht. unfold up. rewrite Es.
+  match goal with |- context [if negb ?c then _ else _] => destruct c end; cbn [negb]; [|exact I].
+  destruct rest as [|parent rest']; [exfalso; apply (test_has_parent _ _ Hs Ht); reflexivity|].
+  pose proof Hs as (Hfc & Ha & Hs').
+  unfold adj_ok in Ha. rewrite Ht in Ha. destruct Ha as (Hnd & Hts & Hrd).
+  pose proof (stack_ok_top _ _ Hs') as Hfp.
+  destruct (fi_attach cur parent Hfp) as (Hf1 & Hd1 & Ha1 & Hc1 & Hr1 & Hn1).
+  { destruct (f_attach cur); auto. }
+  set (p1 := attach_into cur parent) in *.
+  assert (Hs1 : stack_ok (p1 :: rest')) by (apply (stack_ok_replace parent); auto).
+  assert (Hrd1 : ready p1).
+  { unfold ready. rewrite Hd1. split; [exact Hts|]. rewrite (iscomplete_ext parent p1 None Hd1 Hc1 Hr1). exact Hrd. }
+  destruct (up_loop_ready rest' p1 (p_expected st) Hs1 Hrd1) as (top' & r' & e' & E1 & E2 & E3 & E4 & E5).
+  rewrite E1. pcbn. split; [reflexivity|]. split; [reflexivity|].
+  exists top', r'. split; [reflexivity|]. split; [exact E2|].
+  split; [rewrite E3, !n_vartest_cons, (is_vartest_def parent p1 Hd1); lia|].
+  split; [rewrite E4, !n_nontest_cons, Ht, (is_test_def parent p1 Hd1); reflexivity|].
+  destruct E5 as [(-> & A & B)|(-> & A)]; [left|right]; auto.
+Qed.
+
+(* ------------------------------------------------------------------ small facts used by the handlers *)
+
+Lemma lookup_twf : forall T k d, twf_tables T = true -> lookup_cmd T k = Some d -> twf d = true.
+Proof.
+  induction T as [|[k' d'] T IH]; intros k d H Hl; cbn in Hl; [discriminate|].
+  cbn in H. apply andb_true_iff in H. destruct H as [H1 H2].
+  destruct (beq k' k); [inversion Hl; subst; exact H1|apply (IH k d H2 Hl)].
+Qed.
+
+Lemma gci_twf : forall T L name d, twf_tables T = true -> get_command_instance T L name = inl d -> twf d = true.
+Proof.
+  intros T L name d H Hg. unfold get_command_instance in Hg.
+  destruct (lookup_cmd T (lower name)) as [d0|] eqn:El; [|discriminate].
+  assert (d0 = d).
+  { destruct (d_extension d0) as [[|c e]|]; try (inversion Hg; reflexivity).
+    destruct (mem (c :: e) L); inversion Hg; reflexivity. }
+  subst. eapply lookup_twf; eauto.
+Qed.
+
+Lemma pop_bracket_inl : forall st b st1,
+  pop_bracket st b = inl st1 -> exists t, p_brackets st = b :: t /\ st1 = with_brackets t st.
+Proof.
+  intros st b st1 H. unfold pop_bracket in H. destruct (p_brackets st) as [|x t]; [discriminate|].
+  destruct (bracket_eqb x b) eqn:E; [|discriminate]. inversion H. exists t. split; [|reflexivity].
+  destruct x, b; try discriminate; reflexivity.
+Qed.
+
+Lemma cna_ok_has_args : forall f t v add ce loaded f' slot,
+  check_next_arg f t v add ce loaded = CnaOk f' slot -> d_args (f_def f) <> [].
+Proof.
+  intros f t v add ce loaded f' slot H. unfold check_next_arg, has_arguments in H.
+  destruct (d_args (f_def f)); [discriminate|discriminate].
+Qed.
+
+Lemma twf_children_noargs : forall d,
+  twf d = true -> is_ctest d = false -> d_accept_children d = true -> has_test_slot d = false -> d_args d = [].
+Proof.
+  intros d H Ht Hc Hts. unfold twf in H. rewrite Hts, Hc in H. unfold is_ctest in Ht.
+  destruct (d_args d) as [|a l]; [reflexivity|]. exfalso.
+  destruct (d_type d); try discriminate;
+    repeat match goal with K : (_ && _)%bool = true |- _ => apply andb_true_iff in K; destruct K end;
+    cbn in *; congruence.
+Qed.
+
+Lemma twf_nondet : forall d, twf d = true -> d_non_deterministic_args d = true ->
+  d_reassign d = RHasflag /\ is_ctest d = true /\ has_test_slot d = false.
+Proof.
+  intros d H Hn. unfold twf in H. repeat (apply andb_true_iff in H; destruct H as [H ?]).
+  rewrite Hn in *.
+  match goal with K : (_ && is_ctest d && negb (has_test_slot d))%bool = true |- _ => rename K into K0 end.
+  repeat (apply andb_true_iff in K0; destruct K0 as [K0 ?]).
+  split; [destruct (d_reassign d); [discriminate|reflexivity]|]. split; [assumption|apply negb_true_iff; assumption].
+Qed.
+
+Lemma twf_children_det : forall d, twf d = true -> d_accept_children d = true -> d_non_deterministic_args d = false.
+Proof.
+  intros d H Hc. unfold twf in H. repeat (apply andb_true_iff in H; destruct H as [H ?]).
+  rewrite Hc in *. match goal with K : negb (d_non_deterministic_args d) = true |- _ => apply negb_true_iff in K; exact K end.
+Qed.
+
+Lemma twf_hrequire : forall d, twf d = true -> d_complete d = HRequire -> has_test_slot d = false.
+Proof.
+  intros d H Hc. unfold twf in H. repeat (apply andb_true_iff in H; destruct H as [H ?]).
+  rewrite Hc in *. match goal with K : negb (has_test_slot d) = true |- _ => apply negb_true_iff in K; exact K end.
+Qed.
+
+Lemma n_paren_cons : forall x b, n_paren (x :: b) = (match x with BRParen => 1 | _ => 0 end) + n_paren b.
+Proof. intros [] b; reflexivity. Qed.
+
+Lemma n_cbr_cons : forall x b,
+  n_cbr (x :: b) = match x with BRBracket => 0 | BRCBracket => 1 + n_cbr b | BRParen => n_cbr b end.
+Proof. intros [] b; reflexivity. Qed.
+
+(* what the handlers promise *)
+Definition hpost (st : pstate) (e : option (list tkind)) (t : token) (r : mres) : Prop :=
+  match r with
+  | MCrash => False
+  | MTrue st' | MRewind st' => Inv st'
+  | MFalse st1 =>
+      (t_kind t = TLeftCBracket \/ t_kind t = TSemicolon) ->
+      LiveE st1 e /\ p_expected st1 = None /\ p_cstate st1 = p_cstate st
+  | MErr _ => True
+  end.
+
+Lemma liveE_replace_top : forall st e cur rest cur',
+  LiveE st e -> p_stack st = cur :: rest -> fi cur' -> f_def cur' = f_def cur -> f_attach cur' = f_attach cur ->
+  (p_cstate st = CArgs -> e = None -> has_test_slot (f_def cur') = false \/ iscomplete cur' None = true) ->
+  LiveE (replace_top cur' st) e.
+Proof.
+  intros st e cur rest cur' (L1 & L2 & L3 & L4 & L5 & L6 & L7) Es Hf Hd Ha Hcl.
+  unfold replace_top. rewrite Es. unfold LiveE. pcbn. rewrite Es in *.
+  split; [apply (stack_ok_replace cur); auto|]. split; [intros _; discriminate|].
+  split.
+  { intros Hc f [<-|Hin]; [rewrite (is_test_def cur cur' Hd); apply (L3 Hc); left; reflexivity|apply (L3 Hc); right; exact Hin]. }
+  split; [rewrite n_vartest_cons, (is_vartest_def cur cur' Hd), <- n_vartest_cons; exact L4|].
+  split; [rewrite n_nontest_cons, (is_test_def cur cur' Hd), <- n_nontest_cons; exact L5|].
+  split.
+  { intro Hc. destruct (L6 Hc) as (b' & Hb & Hn). exists b'. split; [exact Hb|].
+    rewrite n_nontest_cons, (is_test_def cur cur' Hd), <- n_nontest_cons. exact Hn. }
+  intros Hc He. cbn. apply Hcl; assumption.
+Qed.
+
+Definition passes (e : option (list tkind)) (k : tkind) : Prop :=
+  match e with None => True | Some l => kind_mem k l = true end.
+
+Lemma passes_not_lcb : forall e k, passes e k -> k <> TLeftCBracket -> e <> Some [TLeftCBracket].
+Proof.
+  intros e k Hp Hk He. subst e. cbn in Hp. rewrite orb_false_r in Hp. destruct k; try discriminate. congruence.
+Qed.
+
+(* a control that accepts children and takes no tests has no arguments: it never takes a value *)
+Lemma accepted_value_not_children : forall f t v add ce loaded f' slot,
+  fi f -> shape_ok t v -> t <> TyTest ->
+  check_next_arg f t v add ce loaded = CnaOk f' slot ->
+  is_test f = false -> d_accept_children (f_def f) = true -> False.
+Proof.
+  intros f t v add ce loaded f' slot Hfi Hsh Ht E Hnt Hch.
+  apply (cna_ok_has_args _ _ _ _ _ _ _ _ E).
+  apply twf_children_noargs; auto; [apply Hfi|apply (cna_nontest _ _ _ _ _ _ _ _ Hfi Hsh Ht E)].
+Qed.
+
+(* after a value has been taken by the current command: check_completion keeps the state live *)
+Lemma value_taken_live : forall st e cur rest t v cur' slot ts,
+  LiveE st e -> p_expected st = None -> p_stack st = cur :: rest -> p_cstate st = CArgs ->
+  shape_ok t v -> t <> TyTest ->
+  check_next_arg cur t v true true (p_loaded st) = CnaOk cur' slot ->
+  (ts = true -> True) ->
+  match check_completion (replace_top cur' st) ts with
+  | MTrue st' => Live st' /\ p_cstate st' = CArgs /\ p_brackets st' = p_brackets st /\
+                 (is_test cur = true -> iscomplete cur' None = true ->
+                  exists top' r', p_stack st' = top' :: r' /\ d_non_deterministic_args (f_def top') = false)
+  | _ => False
+  end.
+Proof.
+  intros st e cur rest t v cur' slot ts HL He Es Hcs Hsh Ht E _.
+  pose proof HL as (L1 & _).
+  rewrite Es in L1. pose proof (stack_ok_top _ _ L1) as Hfc.
+  pose proof (cna_post_holds cur t v true true (p_loaded st) Hfc Hsh) as P. rewrite E in P.
+  destruct P as (Hd & Ha & _ & Hf' & _).
+  pose proof (cna_nontest _ _ _ _ _ _ _ _ Hfc Hsh Ht E) as Hnts.
+  assert (HL1 : Live (replace_top cur' st)).
+  { unfold Live. assert (Hex : p_expected (replace_top cur' st) = p_expected st) by (unfold replace_top; rewrite Es; reflexivity).
+    rewrite Hex, He.
+    assert (HLn : LiveE st None).
+    { destruct HL as (A1 & A2 & A3 & A4 & A5 & A6 & A7). unfold LiveE. repeat split; auto.
+      - unfold exp_ind. cbn. lia.
+      - intro Hc. rewrite Hcs in Hc. discriminate.
+      - intros _ _. rewrite Es. left. exact Hnts. }
+    apply (liveE_replace_top st None cur rest cur' HLn Es Hf' Hd Ha).
+    intros _ _. left. rewrite Hd. exact Hnts. }
+  assert (Hst1 : p_stack (replace_top cur' st) = cur' :: rest) by (unfold replace_top; rewrite Es; reflexivity).
+  assert (Hcs1 : p_cstate (replace_top cur' st) = CArgs) by (unfold replace_top; rewrite Es; exact Hcs).
+  assert (Hbr1 : p_brackets (replace_top cur' st) = p_brackets st) by (unfold replace_top; rewrite Es; reflexivity).
+  pose proof (cc_live (replace_top cur' st) ts HL1) as C.
+  rewrite Hcs1 in C.
+  assert (C' := C ltac:(discriminate) ltac:(discriminate) (fun _ => eq_refl)). clear C.
+  assert (C'' : match check_completion (replace_top cur' st) ts with
+                | MTrue st' => Live st' /\ p_cstate st' = CArgs /\ p_brackets st' = p_brackets (replace_top cur' st) /\
+                     (forall c r, p_stack (replace_top cur' st) = c :: r -> is_test c = true -> iscomplete c None = true ->
+                                  exists top' r', p_stack st' = top' :: r' /\ d_non_deterministic_args (f_def top') = false)
+                | _ => False end).
+  { apply C'. intros c r Ec Hnt Hch Hcomp. exfalso. rewrite Hst1 in Ec. inversion Ec; subst c r.
+    apply (accepted_value_not_children cur t v true true (p_loaded st) cur' slot Hfc Hsh Ht E).
+    - rewrite <- (is_test_def cur cur' Hd). exact Hnt.
+    - rewrite <- Hd. exact Hch. }
+  destruct (check_completion (replace_top cur' st) ts) as [st'| | | |]; try contradiction.
+  destruct C'' as (A & B & C & D). split; [exact A|]. split; [exact B|]. split; [rewrite C; exact Hbr1|].
+  intros Htc Hcc. apply (D cur' rest Hst1); [rewrite (is_test_def cur cur' Hd); exact Htc|exact Hcc].
+Qed.
+
+Lemma liveE_weaken_none : forall st e, LiveE st e -> LiveE st None.
+Proof.
+  intros st e (A1 & A2 & A3 & A4 & A5 & A6 & A7). unfold LiveE.
+  split; [exact A1|]. split; [exact A2|]. split; [exact A3|]. split; [unfold exp_ind in *; cbn; lia|].
+  split; [exact A5|].
+Abort.
+
+Lemma m_stringlist_post : forall st e t,
+  LiveE st e -> p_expected st = None -> p_cstate st = CStrList -> passes e (t_kind t) ->
+  hpost st e t (m_stringlist st t).
+Proof.
+  intros st e t HL He Hcs Hp. pose proof HL as (L1 & L2 & L3 & L4 & L5 & L6 & L7).
+  unfold m_stringlist.
+  destruct (p_stack st) as [|cur rest] eqn:Es; [exfalso; apply L2; [rewrite Hcs; discriminate|reflexivity]|].
+  destruct (L6 Hcs) as (b' & Hb & Hn).
+  destruct (t_kind t) eqn:Ek; try (cbn; intros _; split; [exact HL|split; [exact He|reflexivity]]).
+  - (* ']' *)
+    unfold pop_bracket. rewrite Hb. cbn [bracket_eqb].
+    set (st1 := with_brackets b' st).
+    assert (Hne : e <> Some [TLeftCBracket]) by (apply (passes_not_lcb e TRightBracket Hp); discriminate).
+    specialize (Hn Hne).
+    pose proof (stack_ok_top _ _ L1) as Hfc.
+    assert (Hsh : shape_ok TyStringList (VList (p_curlist st1))) by exact I.
+    pose proof (cna_post_holds cur TyStringList (VList (p_curlist st1)) true true (p_loaded st1) Hfc Hsh) as P.
+    unfold lift_cna.
+    destruct (check_next_arg cur TyStringList (VList (p_curlist st1)) true true (p_loaded st1)) as [cur' slot| | |] eqn:E;
+      try exact I; try contradiction.
+    + (* the list is taken *)
+      set (st2 := with_cstate CArgs st1).
+      assert (HL2 : LiveE st2 None).
+      { unfold LiveE, st2, st1. pcbn. rewrite Es.
+        split; [exact L1|]. split; [intros _; discriminate|]. split; [discriminate|].
+        split; [rewrite Hb, n_paren_cons in L4; change (exp_ind None) with 0; lia|].
+        split; [cbn [cs_ind]; exact Hn|]. split; [discriminate|].
+        intros _ _. cbn. left. apply (cna_nontest _ _ _ _ _ _ _ _ Hfc Hsh ltac:(discriminate) E). }
+      assert (Hrt : with_cstate CArgs (replace_top cur' st1) = replace_top cur' st2).
+      { unfold replace_top, st2, st1. pcbn. rewrite Es. reflexivity. }
+      rewrite Hrt.
+      pose proof (value_taken_live st2 None cur rest TyStringList (VList (p_curlist st1)) cur' slot true HL2) as V.
+      assert (Hst2 : p_stack st2 = cur :: rest) by (unfold st2, st1; pcbn; exact Es).
+      specialize (V He Hst2 eq_refl Hsh ltac:(discriminate) E (fun _ => I)).
+      destruct (check_completion (replace_top cur' st2) true); try contradiction.
+      cbn. right. apply V.
+    + (* refused *)
+      cbn. intros [H|H]; rewrite Ek in H; discriminate.
+  - (* ',' *)
+    cbn. right. unfold Live, LiveE. pcbn. rewrite Es, Hcs.
+    split; [exact L1|]. split; [intros _; discriminate|]. split; [discriminate|].
+    split; [change (exp_ind (Some [TString])) with 0; lia|]. split; [rewrite Hcs in L5; exact L5|].
+    split; [|discriminate].
+    intros _. exists b'. split; [exact Hb|]. intros _. apply Hn. apply (passes_not_lcb e TComma Hp). discriminate.
+  - (* a string *)
+    destruct (negb (utf8_valid (t_val t))); [exact I|].
+    cbn. right. unfold Live, LiveE. pcbn. rewrite Es, Hcs.
+    split; [exact L1|]. split; [intros _; discriminate|]. split; [discriminate|].
+    split; [change (exp_ind (Some [TComma; TRightBracket])) with 0; lia|]. split; [rewrite Hcs in L5; exact L5|].
+    split; [|discriminate].
+    intros _. exists b'. split; [exact Hb|]. intros _. apply Hn. apply (passes_not_lcb e TString Hp). discriminate.
+Qed.
